@@ -52,7 +52,10 @@ Inductive ev :=
   | Closed (i : nat)        (* protocol i reports connection_closed() *)
   | UserClose               (* atv.close() *)
   | Api (m : nat)           (* call of the m-th member of the generated table *)
-  | PushStart | PushStop.   (* atv.push_updater.start() / .stop() *)
+  | PushStart | PushStop    (* atv.push_updater.start() / .stop() *)
+  | PostPlay (i : nat)      (* protocol i's push updater produces a new play status *)
+  | PostErr (i : nat)       (* protocol i's push updater reports a play status error *)
+  | RunLoop.                (* the event loop runs everything scheduled so far *)
 
 (* ndm = number of connected protocols whose close() itself reports connection_closed
    (DMAP does); they speak up when the device object is closed for the first time. *)
